@@ -67,6 +67,18 @@ inline int& vf_mpi_rank()
     return r;
 }
 
+// The rank threads run on a communicator of their own; MPI_COMM_WORLD is a different object whose ranks are
+// numbered differently (local rank + 3), like a sub-communicator created with MPI_Comm_split.  Code under test
+// must only use the communicator it was given: every use of MPI_COMM_WORLD is counted.
+inline VfWorld*& vf_mpi_current()
+{
+    static thread_local VfWorld* w = 0;
+    return w;
+}
+VfWorld* vf_mpi_comm_world();
+std::uint64_t& vf_mpi_world_misuse();
+#define MPI_COMM_WORLD (vf_mpi_comm_world())
+
 inline std::uint64_t vf_mpi_mix(std::uint64_t& s)
 {
     std::uint64_t z = (s += 0x9e3779b97f4a7c15ULL);
@@ -75,8 +87,18 @@ inline std::uint64_t vf_mpi_mix(std::uint64_t& s)
     return z ^ (z >> 31);
 }
 
-inline int MPI_Comm_rank(MPI_Comm, int* rank) { *rank = vf_mpi_rank(); return MPI_SUCCESS; }
-inline int MPI_Comm_size(MPI_Comm c, int* size) { *size = c->P; return MPI_SUCCESS; }
+inline int MPI_Comm_rank(MPI_Comm c, int* rank)
+{
+    if (c == vf_mpi_comm_world()) { std::lock_guard<std::mutex> g(c->m); ++vf_mpi_world_misuse(); *rank = vf_mpi_rank() + 3; return MPI_SUCCESS; }
+    *rank = vf_mpi_rank();
+    return MPI_SUCCESS;
+}
+inline int MPI_Comm_size(MPI_Comm c, int* size)
+{
+    if (c == vf_mpi_comm_world()) { std::lock_guard<std::mutex> g(c->m); ++vf_mpi_world_misuse(); *size = (vf_mpi_current() ? vf_mpi_current()->P : 1) + 5; return MPI_SUCCESS; }
+    *size = c->P;
+    return MPI_SUCCESS;
+}
 
 template <typename X> inline void vf_mpi_reduce(VfWorld* w, std::vector<int> const& red, int count)
 {
@@ -123,6 +145,12 @@ inline void vf_mpi_abort(VfWorld* w, std::string const& why)
 
 inline int MPI_Allreduce(const void* send, void* recv, int count, MPI_Datatype type, MPI_Op op, MPI_Comm w)
 {
+    if (w == vf_mpi_comm_world())
+    {
+        { std::lock_guard<std::mutex> g(w->m); ++vf_mpi_world_misuse(); }
+        w = vf_mpi_current();      // keep the ranks going; the misuse is reported by the harness
+        if (!w) return MPI_ERR_OTHER;
+    }
     int const rank = vf_mpi_rank();
     // perturb the arrival order at this (real) suspension point
     {
@@ -203,6 +231,17 @@ inline int MPI_Allreduce(const void* send, void* recv, int count, MPI_Datatype t
     return MPI_SUCCESS;
 }
 
+inline VfWorld* vf_mpi_comm_world()
+{
+    static VfWorld sentinel;
+    return &sentinel;
+}
+inline std::uint64_t& vf_mpi_world_misuse()
+{
+    static std::uint64_t n = 0;     // guarded by the sentinel's mutex
+    return n;
+}
+
 // run fn(rank, comm) on P rank threads; returns after all have finished
 inline void vf_mpi_run(VfWorld& w, int P, std::uint64_t seed, std::function<void(int, MPI_Comm)> const& fn)
 {
@@ -218,6 +257,7 @@ inline void vf_mpi_run(VfWorld& w, int P, std::uint64_t seed, std::function<void
     {
         th.emplace_back([&w, r, &fn] {
             vf_mpi_rank() = r;
+            vf_mpi_current() = &w;
             fn(r, &w);
             std::unique_lock<std::mutex> lk(w.m);
             ++w.finished;
